@@ -17,12 +17,12 @@ namespace Pg.C10
 
 /-- Exception classes (the only part of an exception that is compared). -/
 inductive Err where
-  | value | key | type | index | assertion
+  | value | key | type | index | assertion | attribute
   deriving DecidableEq, Repr
 
 def Err.name : Err → String
   | .value => "ValueError" | .key => "KeyError" | .type => "TypeError"
-  | .index => "IndexError" | .assertion => "AssertionError"
+  | .index => "IndexError" | .assertion => "AssertionError" | .attribute => "AttributeError"
 
 inductive Key where
   | s (name : List Char)
